@@ -51,7 +51,7 @@ def main():
         "version": 1,
         "setup_cmd": "./setup.sh",
         "hooks": {"guard": "STEPCODE_VERIF", "enable": "all checks build /repo's working tree into /verif/.work/build-<variant> with -DSTEPCODE_VERIF (no guarded hook code exists; the define is reserved)",
-                  "baseline_off_cmd": "cmake -G Ninja -S /repo -B /repo/_build -DSC_ENABLE_TESTING=ON && cmake --build /repo/_build && ctest --test-dir /repo/_build -j8 --timeout 900",
+                  "baseline_off_cmd": "cmake -G Ninja -S /repo -B /repo/_build -DSC_ENABLE_TESTING=ON -DCMAKE_BUILD_TYPE=RelWithDebInfo && cmake --build /repo/_build && ctest --test-dir /repo/_build -j8 --timeout 900",
                   "source_commits": [], "add_only": True},
         "engines": [
             {"name": "check", "path": "check", "serves_properties": sorted(CHECKS), "kind_free_text": "Python dispatcher (lib/runcheck.py) -> lib/checks/cXX.py; Hypothesis 6.168, rapidcheck, libFuzzer, ASan/UBSan builds of /repo's working tree"}],
